@@ -26,7 +26,7 @@ WALL = {"quick": 1200, "thorough": 10800}
 MAX_TIMEOUTS = {"quick": 1, "thorough": 20}
 REQUIRED = {"build_files": 300, "residue_selections_checked": 5000, "molecule_blocks": 600, "ranges_spanning_other_names": 100,
             "start_specs": 150, "ligand_specs": 100, "ligands_built": 40, "split_specs": 100, "distance_restraint_blocks": 100,
-            "persistence_blocks": 60}
+            "persistence_blocks": 60, "multi_residue_ligands": 15, "split_with_start_runs": 20}
 _done = False
 
 
@@ -37,7 +37,7 @@ def setup():
 def plan(tier, seed):
     n = 1500 if tier == "quick" else 12000
     return [["bld", i] for i in range(n)] + [["start", i] for i in range(n // 3)] + [["lig", i] for i in range(n // 5)] + \
-        [["split", i] for i in range(n // 4)]
+        [["split", i] for i in range(n // 4)] + [["splitstart", i] for i in range(n // 15)]
 
 
 def gen_top(rng, lig=False):
@@ -61,13 +61,18 @@ def gen_top(rng, lig=False):
     mts["W"] = ["WAT"]
     L.extend(["[ moleculetype ]", "LG 1", "[ atoms ]", "1 B 1 LIG L 1 0.0"])
     mts["LG"] = ["LIG"]
+    # a ligand molecule with two residues
+    L.extend(["[ moleculetype ]", "LG2 1", "[ atoms ]", "1 B 1 LA L 1 0.0", "2 A 2 LB L 2 0.0", "[ bonds ]", "1 2 1 0.35 1000"])
+    mts["LG2"] = ["LA", "LB"]
     order = []
     for _ in range(rng.randint(3, 6)):
-        order.append((rng.choice(["CH", "CH", "BR", "W", "LG"] if lig else ["CH", "CH", "BR", "W"]), rng.randint(1, 3)))
+        order.append((rng.choice(["CH", "CH", "BR", "W", "LG", "LG2"] if lig else ["CH", "CH", "BR", "W"]), rng.randint(1, 3)))
     if not any(n == "CH" for n, _ in order):
         order.insert(rng.randrange(len(order) + 1), ("CH", 2))
     if lig and not any(n == "LG" for n, _ in order):
         order.append(("LG", rng.randint(1, 3)))
+    if lig and not any(n == "LG2" for n, _ in order) and rng.random() < 0.6:
+        order.insert(rng.randrange(len(order) + 1), ("LG2", rng.randint(1, 2)))
     L.extend(["[ system ]", "x", "[ molecules ]"] + ["%s %d" % x for x in order])
     inst = [n for n, c in order for _ in range(c)]
     return "\n".join(L) + "\n", mts, inst
@@ -92,6 +97,8 @@ def run_case(cid, rng, workdir):
         return run_start(rng, workdir, res)
     if kind == "lig":
         return run_ligands(rng, workdir, res)
+    if kind == "splitstart":
+        return run_split_start(rng, workdir, res)
     return run_split(rng, workdir, res)
 
 
@@ -292,7 +299,8 @@ def run_start(rng, workdir, res):
 # ----------------------------------------------------------------------------- -lig
 def run_ligands(rng, workdir, res):
     text, mts, inst = gen_top(rng, lig=True)
-    ligs = [i for i, n in enumerate(inst) if n == "LG"]
+    lname = "LG2" if (rng.random() < 0.4 and "LG2" in inst) else "LG"
+    ligs = [i for i, n in enumerate(inst) if n == lname]
     hosts = [i for i, n in enumerate(inst) if n == "CH"]
     if not ligs or not hosts:
         res["status"] = "rejected"
@@ -309,7 +317,7 @@ def run_ligands(rng, workdir, res):
         style = rng.choice(["idx", "idx", "name"])
         if style == "idx":
             lg = avail.pop(0) if rng.random() < 0.6 else avail.pop(rng.randrange(len(avail)))
-            specs.append(["CH#%d-%s#%d" % (h, resn[ri], ri + 1), "LG#%d" % lg])
+            specs.append(["CH#%d-%s#%d" % (h, resn[ri], ri + 1), "%s#%d" % (lname, lg)])
             expect.append((h, ri, lg))
         else:
             # ligand given by name: the ligands of that name are handed out in topology order
@@ -317,7 +325,7 @@ def run_ligands(rng, workdir, res):
             if lg not in avail:
                 continue
             avail.remove(lg)
-            specs.append(["#%d-%s#%d" % (h, resn[ri], ri + 1), "LG"])
+            specs.append(["#%d-%s#%d" % (h, resn[ri], ri + 1), lname])
             expect.append((h, ri, lg))
     if not specs:
         res["status"] = "rejected"
@@ -346,21 +354,28 @@ def run_ligands(rng, workdir, res):
             violation(res, "ligand-not-handed-back", "molecule %d (%s) has %d residues after building, its type has %d" %
                       (mi, inst[mi], len(m.nodes), len(mts[inst[mi]])), w)
             return res
+    if lname == "LG2":
+        bump(res, "multi_residue_ligands")
     for h, ri, lg in expect:
         bump(res, "ligands_built")
         hp = np.array(topo.molecules[h].nodes[ri]["position"], dtype=float)
-        lp = np.array(topo.molecules[lg].nodes[0]["position"], dtype=float)
-        d = float(np.linalg.norm(CC.minimg(hp - lp, box)))
-        sa = topo.volumes[topo.molecules[h].nodes[ri].get("template", topo.molecules[h].nodes[ri]["resname"])]
-        sb = topo.volumes[topo.molecules[lg].nodes[0].get("template", topo.molecules[lg].nodes[0]["resname"])]
-        step = 1.0 * (sa + sb) / 2
-        if abs(d - step) > 1e-6:
-            # which ligand sits there instead?
-            near = [j for j in [i for i, n in enumerate(inst) if n == "LG"]
-                    if abs(np.linalg.norm(CC.minimg(hp - np.array(topo.molecules[j].nodes[0]["position"]), box)) - step) < 1e-6]
-            violation(res, "ligand-not-one-step-from-host:%s" % ("another-ligand-there" if near else "nothing-there"),
-                      "ligand molecule %d is %.4f nm from residue %d of molecule %d (one step = %.4f); ligands at one step: %s" %
-                      (lg, d, ri + 1, h, step, near), w)
+        for lnode in topo.molecules[lg].nodes:          # every residue of the ligand is attached to the host residue
+            lp = np.array(topo.molecules[lg].nodes[lnode]["position"], dtype=float)
+            d = float(np.linalg.norm(CC.minimg(hp - lp, box)))
+            sa = topo.volumes[topo.molecules[h].nodes[ri].get("template", topo.molecules[h].nodes[ri]["resname"])]
+            sb = topo.volumes[topo.molecules[lg].nodes[lnode].get("template", topo.molecules[lg].nodes[lnode]["resname"])]
+            step = 1.0 * (sa + sb) / 2
+            if abs(d - step) > 1e-6:
+                # which ligand sits there instead?
+                near = [j for j in [i for i, n in enumerate(inst) if n == lname]
+                        if abs(np.linalg.norm(CC.minimg(hp - np.array(topo.molecules[j].nodes[0]["position"]), box)) - step) < 1e-6]
+                kind = "another-ligand-there" if near else "nothing-there"
+                if len(topo.molecules[lg].nodes) > 1:
+                    kind += ":multi-residue-ligand"
+                violation(res, "ligand-not-one-step-from-host:%s" % kind,
+                          "residue %s of ligand molecule %d is %.4f nm from residue %d of molecule %d (one step = %.4f); ligands at "
+                          "one step: %s" % (lnode, lg, d, ri + 1, h, step, near), w)
+                break
     return res
 
 
@@ -437,4 +452,53 @@ def run_split(rng, workdir, res):
             want = sorted(parts[newnames.index(rn)])
             if got != want:
                 violation(res, "split-residue-has-wrong-atoms", "new residue %s holds %s, specification says %s" % (rn, got, want), w)
+    return res
+
+
+# ----------------------------------------------------------------------------- -split together with -start (end to end)
+def run_split_start(rng, workdir, res):
+    """every residue is split (the program cannot back-map unsplit residues next to split ones); the start residue is
+    named by its *new* residue name, so it can only be found after the split"""
+    nres = rng.randint(2, 5)
+    nat = rng.randint(2, 4)
+    names = ["P%d" % i for i in range(nat)]
+    L = ["[ defaults ]", "1 2 no 1.0 1.0", "[ atomtypes ]", "A 36.0 0.0 A 0.47 2.0", "[ moleculetype ]", "M 1", "[ atoms ]"]
+    k = 1
+    bonds = []
+    first = []
+    for ri in range(nres):
+        first.append(k)
+        for j, a in enumerate(names):
+            L.append("%d A %d RA %s %d 0.0" % (k, ri + 1, a, k))
+            if j:
+                bonds.append("%d %d 1 0.3 1000" % (k - 1, k))
+            k += 1
+    for i in range(nres - 1):
+        bonds.append("%d %d 1 0.3 1000" % (first[i] + nat - 1, first[i + 1]))
+    L += ["[ bonds ]"] + bonds + ["[ system ]", "x", "[ molecules ]", "M %d" % rng.randint(1, 2)]
+    text = "\n".join(L) + "\n"
+    cut = rng.randint(1, nat - 1)
+    spec = "RA:N0-%s:N1-%s" % (",".join(names[:cut]), ",".join(names[cut:]))
+    target = rng.choice(["N0", "N1"])
+    start = ["M#0-%s" % target]
+    with open(os.path.join(workdir, "ss.top"), "w") as fh:
+        fh.write(text)
+    bump(res, "split_with_start_runs")
+    res["sig"] = sig_of([text, spec, start])
+    res["sample"] = {"split": spec, "start": start, "residues": nres}
+    res["nontrivial"] = True
+    w = {"top": text, "split": [spec], "start": start}
+    run, ctx = CC.run_gen_coords(toppath=Path(workdir) / "ss.top", outpath=Path(workdir) / "ss.gro", name="x",
+                                 box=np.array([7.0, 7.0, 7.0]), split=[spec], start=start)
+    if run["status"] != "ok":
+        violation(res, "split-with-start-rejected:%s" % run["exc_type"], "gen_coords -split %s -start %s stopped with %s" %
+                  (spec, start, run["error"]), w)
+        return res
+    topo = ctx["topology"]
+    mol = topo.molecules[0]
+    want = [n for n in mol.nodes if mol.nodes[n]["resname"] == target][0]
+    got = [nd for mi, nd, _ in ctx["starts"] if mi == 0]
+    if not got or got[0] != want:
+        violation(res, "start-not-resolved-on-split-residues", "molecule 0 was started from residue node %s (%s), -start %s "
+                  "selects node %s" % (got[:1], mol.nodes[got[0]]["resname"] if got else None, start, want), w)
     return res
